@@ -95,3 +95,26 @@ Theorem C01_cached_read_refuted :
   run_node cached_handler (Some 1) 0 [false] <> run_node cached_handler None 0 [false].
 Proof. exact cached_handler_nodes_disagree. Qed.
 Print Assumptions C01_cached_read_refuted.
+
+(* restarted node.  [run_node_restarting h l0 l s bs] replaces the node's memory by [l0] (the memory of newly
+   constructed keeper objects) before every block whose flag is set, leaving the store alone.  For a handler free of
+   node-local state this cannot be observed: at each restart the restarted node is the node with memory [l'] := l0 of
+   C01_nodes_with_equal_stores_agree, on the store [s] the node that kept running holds at that block.  The driver
+   TestC01Restart samples exactly this equation on the real keepers (it rebuilds all Layer keeper objects over the same
+   stores at block boundaries of generated histories and compares stores, events and results after every block);
+   C01_cached_read_refuted is the kind of handler for which it fails. *)
+Theorem C01_restarts_invisible {L S B O : Type} (h : L -> S -> B -> L * S * O) :
+  local_free h -> forall bs l0 l s, run_node_restarting h l0 l s bs = run_node h l s (map snd bs).
+Proof. exact (local_free_restarts_invisible h). Qed.
+Print Assumptions C01_restarts_invisible.
+
+(* a restart case whose check passes: same number of blocks, and after every block the restarted node and the node that
+   kept running recorded equal store digests, event digests and operation results *)
+Theorem C01_restart_check_sound hs rs k r obs h n e :
+  c01_restart_check (RestartCase hs rs k r obs h n e) = [] ->
+  List.length k = List.length r /\
+  (forall i d, obs_stores (nth i k d) = obs_stores (nth i r d) /\ obs_events (nth i k d) = obs_events (nth i r d)
+               /\ obs_results (nth i k d) = obs_results (nth i r d)) /\
+  obs = true /\ h = true.
+Proof. exact (c01_restart_check_sound hs rs k r obs h n e). Qed.
+Print Assumptions C01_restart_check_sound.
